@@ -986,7 +986,7 @@ func contentFromJSON(m map[string]any) *content {
 // taken when it was returned and must import to ITS OWN content.  Then the
 // caller scribbles over a blob after importing it: the imported document and
 // evidence must not change (no aliasing in either direction), and a second
-// export of the same document must equal the first.
+// export of the same document imports to the same content.
 func TestExportHistory(t *testing.T) {
 	evid.RapidCheck(t, 800, 16000, func(rt *rapid.T) {
 		n := rapid.IntRange(2, 5).Draw(rt, "exports")
@@ -1045,11 +1045,16 @@ func TestExportHistory(t *testing.T) {
 		if d := sameEvidence(k.c.Ev, bundle); d != "" {
 			failRT(rt, "import-aliases-input", k.c, bEx, k.blobs[bEx], "the imported evidence changed when the caller overwrote the blob it was imported from: %s", d)
 		}
-		// exporting the same document twice gives equal blobs, and overwriting the first does not affect the second
+		// exporting the same document once more: the new blobs import to the same content (byte-identical
+		// output is not demanded - the property speaks about what an import yields), and the blobs handed
+		// out before are still untouched
 		again := export(rt, k.c, k.doc)
 		for _, kind := range []blobKind{bDoc, bEx, bEv} {
-			if !bytes.Equal(again[kind], k.copies[kind]) {
-				failRT(rt, "export-history", k.c, kind, again[kind], "exporting the same %s twice gives different blobs", blobName[kind])
+			if rejected, diff, _ := importBlob(kind, again[kind], k.c); rejected || diff != "" {
+				failRT(rt, "export-history", k.c, kind, again[kind], "a second export of the same %s does not import to its content (rejected=%v %s)", blobName[kind], rejected, diff)
+			}
+			if !bytes.Equal(k.blobs[kind], k.copies[kind]) {
+				failRT(rt, "export-history", k.c, kind, k.copies[kind], "an earlier %s blob was changed by a later export of the same document", blobName[kind])
 			}
 		}
 		evid.Count("export-history-blobs-checked", int64(3*n))
